@@ -365,7 +365,7 @@ func runCase(c *Case) (int, string, []string) {
 			}
 		}
 		// wait for what the model predicts; whatever is wrong then is reported
-		deadline := time.Now().Add(12 * time.Second)
+		deadline := time.Now().Add(60 * time.Second) // generous: it only costs when something is wrong
 		var ok bool
 		var what string
 		for {
